@@ -80,7 +80,7 @@ class Event(object):
 
 
 class State(object):
-    __slots__ = ("locals", "heap", "sub", "guard", "alive", "epoch", "epoch_all", "graw")
+    __slots__ = ("locals", "heap", "sub", "guard", "alive", "epoch", "epoch_all", "graw", "_nraw")
 
     def __init__(self):
         self.locals = {}
@@ -88,6 +88,7 @@ class State(object):
         self.sub = {}
         self.guard = []
         self.alive = True
+        self._nraw = 0
         self.graw = []  # raw (uncanonicalised) branch conditions with polarity, for deep restriction
         self.epoch = {}  # field name -> id of the last call that may have written it (on any object)
         self.epoch_all = 0
@@ -350,6 +351,7 @@ class Evaluator(object):
         s2.guard.extend(lf)
         s2.graw.append((cond, False))
         n1, n2 = len(s1.guard), len(s2.guard)
+        s1._nraw, s2._nraw = len(s1.graw), len(s2.graw)
         if _contradictory(s1.guard):
             s1.alive = "dead"
         if _contradictory(s2.guard):
@@ -384,10 +386,12 @@ class Evaluator(object):
                 st.guard.append((("impl", canon(("or", ("not", cond), _conj(only1)))), True))
             if only2:
                 st.guard.append((("impl", canon(("or", cond, _conj(only2)))), True))
-            if only1:
-                st.graw.append((("or", ("not", cond), _conj(only1)), True))
-            if only2:
-                st.graw.append((("or", cond, _conj(only2)), True))
+            r1 = [r for r in s1.graw[getattr(s1, "_nraw", len(s1.graw)):]]
+            r2 = [r for r in s2.graw[getattr(s2, "_nraw", len(s2.graw)):]]
+            if only1 and r1:
+                st.graw.append((("or", ("not", cond), _conj(r1)), True))
+            if only2 and r2:
+                st.graw.append((("or", cond, _conj(r2)), True))
         elif a1:
             st.locals, st.heap, st.sub, st.guard = s1.locals, s1.heap, s1.sub, s1.guard
             st.epoch, st.epoch_all, st.graw = s1.epoch, s1.epoch_all, s1.graw
